@@ -45,7 +45,7 @@ ASSUMPTIONS = {
     "effect": "an effect API call: its precondition `!sandboxed` is the contract form of 'no effect in sandbox mode'",
 }
 LEMMAS = {}
-UNVERIFIED = {"C24": [
+UNVERIFIED = {"C25": ["as C24, for the arms that read standard input or start a process (the built-ins that can block inside one step)"], "C24": [
     "the slice drops every expression except tests of env.enforce_sandbox, effect API calls and control flow; it is sound only if (a) the effect pattern list is complete — an effect API not in the list is invisible — and (b) nothing dropped assigns env.enforce_sandbox (checked syntactically here)",
     "effects reachable outside the two dispatch functions (imports loading files, :commands of the sessions, the test runner) are not covered",
     "that playground-run / sandboxed-test set env.enforce_sandbox = true (two assignments, sandboxed_playground.rs:51, test_runner.rs:70)",
@@ -227,12 +227,16 @@ def build(tier):
                 # in this arm is inconclusive (undecided unless a witness reproduces it)
                 u.unspecified_loops[gname] = 1
             line0 = src.line_of(toks[arrow].start)
-            u.fn_props[gname] = c24
-            u.safety_props[gname] = c24
-            tag0 = Tag("repo", fn=gname, repo_file=EV, repo_line=line0, props=c24)
+            # an arm that reads standard input or starts a process can block for ever inside one step: its sandbox
+            # guard is also what C25 (a sandboxed run always finishes) rests on
+            blocking = any(re.search(r'effect\(sandboxed, "(?:[^"]*stdin|[^"]*process|Command)', t_) for (t_, _l) in sl.out)
+            aprops = {"C24", "C25"} if blocking else c24
+            u.fn_props[gname] = aprops
+            u.safety_props[gname] = aprops
+            tag0 = Tag("repo", fn=gname, repo_file=EV, repo_line=line0, props=aprops)
             u.emit("#[verifier::exec_allows_no_decreases_clause]\npub fn %s(sandboxed: bool) -> (r: Result<(), ()>)\n{" % gname, tag0)
             for (text, ln) in sl.out:
-                u.emit(text, Tag("repo", fn=gname, repo_file=EV, repo_line=ln, props=c24))
+                u.emit(text, Tag("repo", fn=gname, repo_file=EV, repo_line=ln, props=aprops))
             u.emit("    Ok(())\n}", tag0)
             n_arms += 1
         u.slice_stats = getattr(u, "slice_stats", {})
